@@ -366,6 +366,16 @@ def run(tier: str, seed: int) -> int:
     th = tier == "thorough"
     maxf, dm = (2, 3) if th else (2, 2)
     vecs = G.enumerate_models(dm, maxf, CATS)
+    if not th:
+        # plus the models one deviation further that contain the constructs injections interact with
+        seen = {tuple(v) for v in vecs}
+        for v in G.enumerate_models(dm + 1, maxf, CATS):
+            if tuple(v) in seen:
+                continue
+            spec = G.model_from_vector(v, maxf, CATS)
+            tags = set().union(*[f.tags for f in spec.fields])
+            if len(spec.fields) == 2 and ({"wrapper", "clazz-union"} & tags):
+                vecs.append(v)
     tasks = []
     for v in vecs:
         tasks.append(("c10.xml", dict(vec=v, maxf=maxf), 1, ()))
